@@ -139,12 +139,11 @@ class Ctx:
                 "-Q", os.path.join(self.build, "cases"), "Cases"]
 
     def ensure_theories(self):
-        """Generic theory is independent of /repo; (re)build it if setup has not (cheap when built)."""
-        rc, out, err = sh(f"cd {COQ} && ( [ -f Makefile ] || coq_makefile -f _CoqProject -o Makefile >/dev/null ) "
-                          f"&& timeout 1500 make -j16 2>&1 | tail -20", timeout=1600)
-        if rc != 0 or "Error" in out:
-            self.broken("generic-theory-build", f"make in {COQ} failed:\n{out[-3000:]}")
-            return False
+        """Generic theory is independent of /repo; (re)build it if setup has not (cheap when built).
+        Serialised with a file lock; `make -k` so that one unfinished file does not block the others --
+        each check verifies the .vo files it depends on in prove()."""
+        rc, out, err = sh(f"{VERIF}/bin/setup 2>&1 | tail -30", timeout=3300)
+        self.setup_tail = out[-3000:]
         gate = grep_gate([COQ])
         if gate:
             self.broken("axiom-gate", "forbidden token in coq/: " + "; ".join(gate[:5]))
@@ -170,7 +169,8 @@ class Ctx:
                 self.discharged += n
             else:
                 ok_all = False
-                self.broken("theory:" + th, f"{th} has no up-to-date .vo (generic theory did not build)")
+                self.broken("theory:" + th, f"{th} has no up-to-date .vo (generic theory did not build)\n"
+                            + getattr(self, "setup_tail", ""))
         for path in files:
             gate = grep_gate([path])
             n = count_obligations(path)
@@ -267,7 +267,13 @@ def load_known(pid):
         return []
     with open(path) as f:
         data = json.load(f)
-    return [k for k in data.get("findings", []) if k.get("property") == pid]
+    found = [k for k in data.get("findings", []) if k.get("property") == pid]
+    # per-property staging files written while a check is being developed (merged into known_findings.json)
+    extra = os.path.join(VERIF, "findings", pid + ".known.json")
+    if os.path.exists(extra):
+        with open(extra) as f:
+            found += [k for k in json.load(f).get("findings", []) if k.get("property") == pid]
+    return found
 
 
 def count_obligations(path: str) -> int:
@@ -332,7 +338,7 @@ def finish(ctx: Ctx):
     nviol = 0
     seen_sig = set()
     for d in violations:
-        if d["signature"] in seen_sig:
+        if d["signature"] in seen_sig or len(seen_sig) >= 5:
             continue
         seen_sig.add(d["signature"])
         nviol += 1
